@@ -30,7 +30,7 @@ type mutant struct {
 
 func main() {
 	repo := flag.String("repo", "/repo", "")
-	set := flag.Int("set", 1, "operator set: 1 = relational/logical/negation/deletion/0-1/booleans, 2 = bit and shift operators, off-by-one literals, len()-1, compound assignment, dropped negation, swapped arguments, break for continue")
+	set := flag.Int("set", 1, "operator set: 3 = lock weakened to shared / dropped per function and lock, adjacent simple statements swapped; 1 = relational/logical/negation/deletion/0-1/booleans, 2 = bit and shift operators, off-by-one literals, len()-1, compound assignment, dropped negation, swapped arguments, break for continue")
 	prefix := flag.String("prefix", "M", "id prefix")
 	flag.Parse()
 	var files []string
@@ -73,6 +73,111 @@ func main() {
 			name := fd.Name.Name
 			if fd.Recv != nil && len(fd.Recv.List) > 0 {
 				name = types(fd.Recv.List[0].Type) + "." + name
+			}
+			if *set == 3 {
+				// lock operators, per function and lock expression: weaken every exclusive acquisition of
+				// one lock to a shared one (with its releases), or drop the locking of that lock altogether
+				type span struct{ s, e token.Pos }
+				locks := map[string]map[string][]span{} // lock expr -> method -> call spans (selector identifier)
+				var stmts = map[string][]span{}          // lock expr -> whole statements that lock/unlock it
+				ast.Inspect(fd.Body, func(n ast.Node) bool {
+					var call *ast.CallExpr
+					var whole ast.Node
+					switch x := n.(type) {
+					case *ast.ExprStmt:
+						if c, ok := x.X.(*ast.CallExpr); ok {
+							call, whole = c, x
+						}
+					case *ast.DeferStmt:
+						call, whole = x.Call, x
+					}
+					if call == nil {
+						return true
+					}
+					sel, ok := call.Fun.(*ast.SelectorExpr)
+					if !ok {
+						return true
+					}
+					switch sel.Sel.Name {
+					case "Lock", "Unlock", "RLock", "RUnlock":
+						key := string(src[off(sel.X.Pos()):off(sel.X.End())])
+						if locks[key] == nil {
+							locks[key] = map[string][]span{}
+						}
+						locks[key][sel.Sel.Name] = append(locks[key][sel.Sel.Name], span{sel.Sel.Pos(), sel.Sel.End()})
+						stmts[key] = append(stmts[key], span{whole.Pos(), whole.End()})
+					}
+					return true
+				})
+				var keys []string
+				for k := range locks {
+					keys = append(keys, k)
+				}
+				sort.Strings(keys)
+				for _, k := range keys {
+					m := locks[k]
+					if len(m["Lock"]) > 0 && len(m["Unlock"]) > 0 {
+						// multi-site mutant: encoded as one replacement from the first to the last site
+						var sites []span
+						sites = append(sites, m["Lock"]...)
+						sites = append(sites, m["Unlock"]...)
+						sort.Slice(sites, func(i, j int) bool { return sites[i].s < sites[j].s })
+						a, b := sites[0].s, sites[len(sites)-1].e
+						text := string(src[off(a):off(b)])
+						var sb strings.Builder
+						prev := off(a)
+						for _, sp := range sites {
+							sb.WriteString(string(src[prev:off(sp.s)]))
+							sb.WriteString("R" + string(src[off(sp.s):off(sp.e)]))
+							prev = off(sp.e)
+						}
+						_ = text
+						add(name, "lock→rlock "+k, a, b, sb.String())
+					}
+					// drop the locking of this lock altogether
+					sp := stmts[k]
+					sort.Slice(sp, func(i, j int) bool { return sp[i].s < sp[j].s })
+					a, b := sp[0].s, sp[len(sp)-1].e
+					var sb strings.Builder
+					prev := off(a)
+					for _, x := range sp {
+						sb.WriteString(string(src[prev:off(x.s)]))
+						sb.WriteString("_ = 0")
+						prev = off(x.e)
+					}
+					add(name, "unlocked "+k, a, b, sb.String())
+				}
+				// adjacent simple statements swapped
+				ast.Inspect(fd.Body, func(n ast.Node) bool {
+					blk, ok := n.(*ast.BlockStmt)
+					if !ok {
+						return true
+					}
+					simple := func(st ast.Stmt) bool {
+						switch y := st.(type) {
+						case *ast.ExprStmt:
+							_, isCall := y.X.(*ast.CallExpr)
+							return isCall
+						case *ast.AssignStmt:
+							return y.Tok != token.DEFINE
+						case *ast.IncDecStmt:
+							return true
+						}
+						return false
+					}
+					for i := 0; i+1 < len(blk.List); i++ {
+						a, b := blk.List[i], blk.List[i+1]
+						if simple(a) && simple(b) {
+							ta, tb := string(src[off(a.Pos()):off(a.End())]), string(src[off(b.Pos()):off(b.End())])
+							mid := string(src[off(a.End()):off(b.Pos())])
+							if ta != tb {
+								add(name, "swap-stmts", a.Pos(), b.End(), tb+mid+ta)
+							}
+						}
+					}
+					return true
+				})
+				continue
 			}
 			if *set == 2 {
 				ast.Inspect(fd.Body, func(n ast.Node) bool {
